@@ -63,7 +63,7 @@ type Filter struct {
 	statsPos       int           // position in stats result array
 	columnIndex    int           // copy of Column.Index if Column is of type LocalStore
 	columnOptional OptionalFlags // copy of Column.Optional
-	intValue       int8
+	intValue       int64 // integer part of the reference value (not truncated to the int8 column width)
 	isEmpty        bool
 	negate         bool
 	groupOperator  GroupOperator
@@ -411,7 +411,7 @@ func (f *Filter) setFilterValue(strVal string) (err error) {
 					return fmt.Errorf("could not convert %s to number in filter: %s", strVal, f.String(""))
 				}
 				f.floatValue = filterValue
-				f.intValue = int8(filterValue)
+				f.intValue = int64(filterValue)
 				f.int64Value = int64(filterValue)
 			}
 		default:
@@ -667,19 +667,21 @@ func (f *Filter) Match(row *DataRow) bool {
 }
 
 func (f *Filter) MatchInt8(value int8) bool {
+	// compare as int64, the reference value may exceed the int8 range
+	val := int64(value)
 	switch f.operator {
 	case Equal:
-		return value == f.intValue
+		return val == f.intValue
 	case Unequal:
-		return value != f.intValue
+		return val != f.intValue
 	case Less:
-		return value < f.intValue
+		return val < f.intValue
 	case LessThan:
-		return value <= f.intValue
+		return val <= f.intValue
 	case Greater:
-		return value > f.intValue
+		return val > f.intValue
 	case GreaterThan:
-		return value >= f.intValue
+		return val >= f.intValue
 	default:
 		strVal := fmt.Sprintf("%v", value)
 
@@ -845,7 +847,7 @@ func (f *Filter) MatchInt64List(list []int64) bool {
 	case Unequal:
 		return f.isEmpty && len(list) != 0
 	case GreaterThan:
-		fVal := int64(f.intValue)
+		fVal := f.intValue
 		for i := range list {
 			if fVal == list[i] {
 				return true
@@ -854,7 +856,7 @@ func (f *Filter) MatchInt64List(list []int64) bool {
 
 		return false
 	case GroupContainsNot:
-		fVal := int64(f.intValue)
+		fVal := f.intValue
 		for i := range list {
 			if fVal == list[i] {
 				return false
